@@ -156,3 +156,9 @@ def post(ctx, bins):
                                         "lexical::* result differs from lexical_core::* for the same call"))
     ctx["post_evaluations"] = n
     return viol
+
+
+def classify(v):
+    """call-site classes of known findings (findlib.py)"""
+    import findlib
+    return findlib.write_class(v)
